@@ -79,6 +79,7 @@ fn alphabet() -> Vec<Op> {
         Op::SetCwd(s("..")),
         Op::Mkfile(s("r")),
         Op::MkdirP(s("x/y")),
+        Op::MkdirP(s("d")), // exists below / already: nothing to create from there, something from /d or /e
         Op::Remove(s("s")),
         Op::ReadAll(s("f")),
         Op::AppendAll(s("/d/f"), vec![]),  // payload replaced by a unique token
@@ -580,6 +581,22 @@ fn c04(ctx: &Ctx, rep: &mut Report) {
             }
         }
     }
+    // (a3) the same shared instance reached through the enum wrapper (`Vfs::Memfs`): a call through it is the call on
+    // the instance, in one critical section - every pair of a call that moves the cwd with a relative-path call
+    VIA_WRAPPER.store(true, Ordering::SeqCst);
+    for a in alpha.iter().filter(|o| matches!(o, Op::SetCwd(_))) {
+        for b in alpha.iter().filter(|o| !matches!(o, Op::SetCwd(_)) && o.paths().iter().any(|p| !p.starts_with('/'))) {
+            idx += 1;
+            if !ctx.mine(idx) {
+                continue;
+            }
+            for program in [vec![vec![fresh_payload(a)], vec![fresh_payload(b)]], vec![vec![fresh_payload(b)], vec![fresh_payload(a), fresh_payload(b)]]] {
+                explore_program(&program, &mut chk, rep, cap);
+                rep.count("programs_through_the_enum_wrapper", 1);
+            }
+        }
+    }
+    VIA_WRAPPER.store(false, Ordering::SeqCst);
     // (b) seeded larger programs
     let mut rng = ctx.rng("c04-programs");
     let n = if ctx.thorough { 40_000 } else { 1_600 } / ctx.shards;
